@@ -17,7 +17,7 @@ type zf struct {
 var zooTypes = map[string][]zf{
 	"Query": {{"title", "", ""}, {"count", "", ""}, {"ratio", "", ""}, {"flag", "", ""}, {"size", "", ""},
 		{"keeper", "Keeper", "keeper"}, {"keepers", "Keeper", ""}, {"animals", "Animal", ""}, {"things", "Thing", ""},
-		{"grid", "Cell", ""}, {"echo", "", "echo"}, {"tags", "", ""}, {"nums", "", ""}, {"matrix", "", ""}, {"find", "Keeper", "find"}, {"boss", "Keeper", ""},
+		{"grid", "Cell", ""}, {"echo", "", "echo"}, {"tags", "", ""}, {"nums", "", ""}, {"matrix", "", ""}, {"stash", "", "stash"}, {"find", "Keeper", "find"}, {"boss", "Keeper", ""},
 		{"ghost", "", ""}, {"relay", "", "relay"}, {"pick", "Thing", "pick"}, {"join", "", "join"}, {"span", "", "span"}, {"chief", "Keeper", ""}, {"blob", "", "blob"}, {"tagged", "", "tagged"}, {"label", "Tag", ""}, {"labelRef", "TagRef", ""}, {"labelAlso", "Tag", ""}, {"odd", "Thing", ""}, {"stamps", "", ""}, {"levels", "", ""}, {"vari", "", "vari"}, {"triple", "", ""}, {"sized", "", "sized"}},
 	"Keeper": {{"name", "", ""}, {"age", "", ""}, {"pets", "Animal", ""}, {"friend", "Keeper", ""}, {"cells", "Cell", ""},
 		{"motto", "", "motto"}, {"rank", "", ""}, {"dogs", "Dog", ""}, {"ghost", "", ""}, {"nick", "", "nick"}, {"code", "", "code"}},
@@ -150,6 +150,9 @@ type ReqOpt struct {
 	// Sized allows sized(s: Size, l: [Size]): enum literals as arguments, one of
 	// them (HUGE) only a value once the schema has been extended.
 	Sized bool
+	// Stash allows stash(v: Vault, key: String!): the input coercion of the
+	// application's scalar panics for one value (the caller recovers).
+	Stash bool
 	// Stamps allows stamps: [Time] and levels: [Size], lists of leaf values
 	// that the application keeps in one []interface{} shared by all requests.
 	Stamps bool
@@ -216,6 +219,11 @@ func (g *reqGen) argsFor(kind string) string {
 		} else {
 			parts = []string{"name: " + strconv.Quote(n)}
 		}
+	case "stash":
+		// an argument of a scalar implemented in Go (its CoerceIn panics for
+		// "boom") defined before a required argument
+		v := []string{`"boom"`, `"fine"`, `7`, `"boom"`}[g.t.Draw(4)]
+		parts = []string{"v: " + v, "key: " + strconv.Quote("k"+strconv.Itoa(g.t.Draw(3)))}
 	case "sized":
 		// enum literals as arguments; HUGE is not a value of Size unless the
 		// schema was extended (the check does that between two calls)
@@ -440,6 +448,10 @@ func (g *reqGen) fieldsOf(typ string) []zf {
 			}
 		case "stamps", "levels":
 			if !g.o.Stamps {
+				continue
+			}
+		case "stash":
+			if !g.o.Stash {
 				continue
 			}
 		case "tagged":
